@@ -190,6 +190,22 @@ class C07(Prop):
             return [{"what": "parsing the definition raised", "exc": exc_kind(e)}]
         view = self.python_view(c)
         fails = []
+        # the definition is the USER's: parsing it leaves the user's syntax tree alone, and parsing the same node again
+        # gives the same interface
+        try:
+            mod = ast.parse(self.source(c))
+            node = mod.body[0] if c["form"] == "class_init" or not c["facts"]["method"] else mod.body[0].body[0]
+            before = ast.dump(mod)
+            p = (lambda: self.parse.class_(node, merge_inner_function="__init__")) if c["form"] == "class_init" else (lambda: self.parse.function(node))
+            first = p()
+            if ast.dump(mod) != before:
+                fails.append({"what": "parsing changed the caller's syntax tree"})
+            second = p()
+            sig = lambda d: [(k, v.get("typ"), v.get("doc"), (lambda x: ast.dump(x) if isinstance(x, ast.AST) else repr(x))(v.get("default", "<absent>"))) for k, v in d["params"].items()]
+            if sig(first) != sig(second):
+                fails.append({"what": "a second parse of the same definition gives another interface", "first": sig(first), "second": sig(second)})
+        except Exception:
+            pass
         got = list(ir["params"].keys())
         want = [p["name"] for p in view]
         if sorted(got) != sorted(want):
